@@ -55,3 +55,6 @@ add("F32","C01","fixed","rebuild-differs","closing a written handle whose entry 
 addfile("KF7","C05","open","rejected-call-appends",
     "renaming a directory that is (an ancestor of) the target of a symlink: the symlink row shares its name with the target's row, the second move record matches no row any more, the index falls one record behind the tape and every later write appends its record and then fails with 'tar header missing' (the link path itself is not rewritten either)",
     relax="symlink-rename", also=["C01"])
+add("F33","C06","fixed","torn-entry-returns-wrong-data","tape cut exactly where the content of a zstandard-compressed content update starts: the header was indexed, and restoring the entry returned an empty file WITHOUT an error (zstandard treats the empty stream as valid; nothing compared the restored length with the recorded size)",
+    ops=[{"k":"writefile","p":"/b","d":D(0,1)},{"k":"chtimes","p":"/b","n":394800504,"t1":1016816504,"t2":1140504761},{"k":"writefile","p":"/b","d":D(1,2,"rand")},{"k":"writefile","p":"/b","d":D(1,3)}],
+    cfg_=cfg(comp="zstandard"), params={"cut":10240,"enumerate":0}, commit="restoring a record that was cut short reports an error")
